@@ -123,8 +123,8 @@ theorem AllStr_pxVal {P : String → Prop} (hx : P extKey) : ∀ (p : TPath) (v 
     simp only [pxVal, AllStr] at h ⊢
     exact AllStrL_pxSeq hx p 0 xs h
   | _, .null, _ => by simp [pxVal, AllStr]
-  | _, .bool _, _ => by simp [pxVal, AllStr]
-  | _, .int _, _ => by simp [pxVal, AllStr]
+  | _, .bool _, h => by simpa [pxVal, AllStr] using h
+  | _, .int _, h => by simpa [pxVal, AllStr] using h
   | _, .float _, h => by simpa [pxVal, AllStr] using h
   | _, .str _, h => by simpa [pxVal, AllStr] using h
 theorem AllStrKV_pxKVs {P : String → Prop} (hx : P extKey) : ∀ (p : TPath) (skip : Bool) (kvs : KVs), AllStrKV P kvs → AllStrKV P (pxKVs p skip kvs)
@@ -346,8 +346,10 @@ theorem ValOkF_resolveObj {P : String → Prop} {c : String} (hc : P c) (env : E
     simp only [resolveObj]
     split
     · split
-      · exact ObjOkF_insert_carrier h hc _
       · exact ObjOkF_of_AllStrKV h
+      · split
+        · exact ObjOkF_insert_carrier h hc _
+        · exact ObjOkF_of_AllStrKV h
     · exact ObjOkF_of_AllStrKV h
   | _ => simpa [resolveObj, ValOkF] using h
 
@@ -459,9 +461,12 @@ theorem OptP_strField {P : String → Prop} {c : String} {kvs : KVs} (h : RawOk 
   · rename_i s' hl
     cases hs
     exact .inr (by simpa [AllStr] using h.1 k _ hl h1 h2 h3 h4)
+  · rename_i i hl
+    cases hs
+    exact .inr (by simpa [AllStr] using h.1 k _ hl h1 h2 h3 h4)
   · cases hs
 
-theorem StrMapOk_strMapEntries {P : String → Prop} : ∀ {m : KVs} {l : List (String × String)},
+theorem StrMapOk_strMapEntries {P : String → Prop} (he : P "") : ∀ {m : KVs} {l : List (String × String)},
     AllStrKV P m → strMapEntries m = some l → StrMapOk P l
   | [], l, _, h => by simp [strMapEntries] at h; subst h; simp [StrMapOk]
   | (k, .str s) :: r, l, hm, h => by
@@ -469,15 +474,25 @@ theorem StrMapOk_strMapEntries {P : String → Prop} : ∀ {m : KVs} {l : List (
     simp only [strMapEntries, Option.map_eq_some_iff] at h
     obtain ⟨l', hl', rfl⟩ := h
     simp only [StrMapOk]
-    exact ⟨hm.1, hm.2.1, StrMapOk_strMapEntries hm.2.2 hl'⟩
-  | (_, .null) :: _, _, _, h => by simp [strMapEntries] at h
+    exact ⟨hm.1, hm.2.1, StrMapOk_strMapEntries he hm.2.2 hl'⟩
+  | (k, .int i) :: r, l, hm, h => by
+    simp only [AllStrKV, AllStr] at hm
+    simp only [strMapEntries, Option.map_eq_some_iff] at h
+    obtain ⟨l', hl', rfl⟩ := h
+    simp only [StrMapOk]
+    exact ⟨hm.1, hm.2.1, StrMapOk_strMapEntries he hm.2.2 hl'⟩
+  | (k, .null) :: r, l, hm, h => by
+    simp only [AllStrKV, AllStr] at hm
+    simp only [strMapEntries, Option.map_eq_some_iff] at h
+    obtain ⟨l', hl', rfl⟩ := h
+    simp only [StrMapOk]
+    exact ⟨hm.1, he, StrMapOk_strMapEntries he hm.2.2 hl'⟩
   | (_, .bool _) :: _, _, _, h => by simp [strMapEntries] at h
-  | (_, .int _) :: _, _, _, h => by simp [strMapEntries] at h
   | (_, .float _) :: _, _, _, h => by simp [strMapEntries] at h
   | (_, .seq _) :: _, _, _, h => by simp [strMapEntries] at h
   | (_, .map _) :: _, _, _, h => by simp [strMapEntries] at h
 
-theorem StrMapOk_strMapField {P : String → Prop} {c : String} {kvs : KVs} (h : RawOk P c kvs) {k : String} {l : List (String × String)}
+theorem StrMapOk_strMapField {P : String → Prop} (he : P "") {c : String} {kvs : KVs} (h : RawOk P c kvs) {k : String} {l : List (String × String)}
     (hs : strMapField k kvs = some l) (h1 : k ≠ xValue) (h2 : k ≠ "Content") (h3 : k ≠ c) (h4 : k ≠ extKey) : StrMapOk P l := by
   unfold strMapField at hs
   split at hs
@@ -486,7 +501,76 @@ theorem StrMapOk_strMapField {P : String → Prop} {c : String} {kvs : KVs} (h :
   · rename_i m hl
     have := h.1 k _ hl h1 h2 h3 h4
     simp only [AllStr] at this
-    exact StrMapOk_strMapEntries this hs
+    exact StrMapOk_strMapEntries he this hs
+  · cases hs
+
+/-! labels: mapping form and list form -/
+
+theorem P_labelVal {P : String → Prop} (he : P "") {v : Val} {s : String} (hv : AllStr P v) (h : labelVal v = some s) : P s := by
+  cases v <;> simp only [labelVal, Option.some.injEq, reduceCtorEq] at h <;> subst h
+  · exact he
+  · simpa [AllStr] using hv
+  · simpa [AllStr] using hv
+  · simpa [AllStr] using hv
+  · simpa [AllStr] using hv
+
+theorem StrMapOk_labelEntries {P : String → Prop} (he : P "") : ∀ {m : KVs} {l : List (String × String)},
+    AllStrKV P m → labelEntries m = some l → StrMapOk P l
+  | [], l, _, h => by simp [labelEntries] at h; subst h; simp [StrMapOk]
+  | (k, v) :: r, l, hm, h => by
+    simp only [AllStrKV] at hm
+    simp only [labelEntries] at h
+    split at h
+    · rename_i s l' hs hl'
+      cases h
+      simp only [StrMapOk]
+      exact ⟨hm.1, P_labelVal he hm.2.1 hs, StrMapOk_labelEntries he hm.2.2 hl'⟩
+    · cases h
+
+theorem StrMapOk_putStr {P : String → Prop} {k v : String} (hk : P k) (hv : P v) :
+    ∀ {acc : List (String × String)}, StrMapOk P acc → StrMapOk P (putStr k v acc)
+  | [], _ => by simp [putStr, StrMapOk, hk, hv]
+  | (k', v') :: r, h => by
+    simp only [StrMapOk] at h
+    simp only [putStr]
+    split
+    · simp only [StrMapOk]; exact ⟨hk, hv, h.2.2⟩
+    · simp only [StrMapOk]; exact ⟨h.1, h.2.1, StrMapOk_putStr hk hv h.2.2⟩
+
+theorem P_sprintScalar {P : String → Prop} (hnil : P "<nil>") {v : Val} {s : String} (hv : AllStr P v) (h : sprintScalar v = some s) : P s := by
+  cases v <;> simp only [sprintScalar, Option.some.injEq, reduceCtorEq] at h <;> subst h
+  · simpa [Val.fmtV] using hnil
+  · simpa [AllStr] using hv
+  · simpa [AllStr] using hv
+  · simpa [AllStr, Val.fmtV] using hv
+  · simpa [AllStr, Val.fmtV] using hv
+
+theorem StrMapOk_labelList {P : String → Prop} (hnil : P "<nil>") (hcut : CutClosed P) :
+    ∀ {xs : List Val} {acc l : List (String × String)}, AllStrL P xs → StrMapOk P acc → labelList xs acc = some l → StrMapOk P l
+  | [], acc, l, _, ha, h => by simp [labelList] at h; subst h; exact ha
+  | x :: xs, acc, l, hx, ha, h => by
+    simp only [AllStrL] at hx
+    simp only [labelList] at h
+    split at h
+    · rename_i s hs
+      have hp := hcut s (P_sprintScalar hnil hx.1 hs)
+      exact StrMapOk_labelList hnil hcut hx.2 (StrMapOk_putStr hp.1 hp.2 ha) h
+    · cases h
+
+theorem StrMapOk_labelsField {P : String → Prop} (he : P "") (hnil : P "<nil>") (hcut : CutClosed P) {c : String} {kvs : KVs}
+    (h : RawOk P c kvs) {l : List (String × String)} (hs : labelsField kvs = some l) (h3 : "labels" ≠ c) : StrMapOk P l := by
+  unfold labelsField at hs
+  split at hs
+  · cases hs; simp [StrMapOk]
+  · cases hs; simp [StrMapOk]
+  · rename_i m hl
+    have := h.1 "labels" _ hl (by decide) (by decide) h3 (by decide)
+    simp only [AllStr] at this
+    exact StrMapOk_labelEntries he this hs
+  · rename_i xs hl
+    have := h.1 "labels" _ hl (by decide) (by decide) h3 (by decide)
+    simp only [AllStr] at this
+    exact StrMapOk_labelList hnil hcut this (by simp [StrMapOk]) hs
   · cases hs
 
 theorem AllStrKV_extField {P : String → Prop} {kvs : KVs} (h : ExtClean P kvs) {m : KVs} (hs : extField kvs = some m) : AllStrKV P m := by
@@ -500,7 +584,8 @@ theorem AllStrKV_extField {P : String → Prop} {kvs : KVs} (h : ExtClean P kvs)
   · cases hs
 
 /-- what the struct decode reads satisfies `P`, except possibly the content -/
-theorem CleanBut_decodeFields {P : String → Prop} {c : String} (hc : c = xValue ∨ c = "content") {kvs : KVs}
+theorem CleanBut_decodeFields {P : String → Prop} (hemp : P "") (hnil : P "<nil>") (hcut : CutClosed P)
+    {c : String} (hc : c = xValue ∨ c = "content") {kvs : KVs}
     (h : RawOk P c kvs) (he : ExtClean P kvs) {o : FileObj} (hd : decodeFields kvs = .ok o) : o.CleanBut P := by
   unfold decodeFields at hd
   split at hd
@@ -511,17 +596,17 @@ theorem CleanBut_decodeFields {P : String → Prop} {c : String} (hc : c = xValu
       · exact ⟨OptP_strField h h1 (by decide) (by decide) (by decide) (by decide),
           OptP_strField h h2 (by decide) (by decide) (by decide) (by decide),
           OptP_strField h h3 (by decide) (by decide) (by decide) (by decide),
-          StrMapOk_strMapField h h6 (by decide) (by decide) (by decide) (by decide),
+          StrMapOk_labelsField hemp hnil hcut h h6 (by decide),
           OptP_strField h h7 (by decide) (by decide) (by decide) (by decide),
-          StrMapOk_strMapField h h8 (by decide) (by decide) (by decide) (by decide),
+          StrMapOk_strMapField hemp h h8 (by decide) (by decide) (by decide) (by decide),
           OptP_strField h h9 (by decide) (by decide) (by decide) (by decide),
           AllStrKV_extField he h10⟩
       · exact ⟨OptP_strField h h1 (by decide) (by decide) (by decide) (by decide),
           OptP_strField h h2 (by decide) (by decide) (by decide) (by decide),
           OptP_strField h h3 (by decide) (by decide) (by decide) (by decide),
-          StrMapOk_strMapField h h6 (by decide) (by decide) (by decide) (by decide),
+          StrMapOk_labelsField hemp hnil hcut h h6 (by decide),
           OptP_strField h h7 (by decide) (by decide) (by decide) (by decide),
-          StrMapOk_strMapField h h8 (by decide) (by decide) (by decide) (by decide),
+          StrMapOk_strMapField hemp h h8 (by decide) (by decide) (by decide) (by decide),
           OptP_strField h h9 (by decide) (by decide) (by decide) (by decide),
           AllStrKV_extField he h10⟩
     · cases hd
@@ -538,9 +623,11 @@ theorem AllStrKV_optStr {P : String → Prop} {k s : String} (hk : P k) (hs : Op
     · exact absurd h hne
     · simp [AllStrKV, AllStr, hk, h]
 
-theorem AllStrKV_optBool {P : String → Prop} {k : String} (hk : P k) (b : Bool) : AllStrKV P (optBool k b) := by
+theorem AllStrKV_optBool {P : String → Prop} {k : String} (hk : P k) (ht : P "true") (b : Bool) : AllStrKV P (optBool k b) := by
   unfold optBool
-  split <;> simp [AllStrKV, AllStr, hk]
+  split
+  · simp only [AllStrKV, AllStr, Val.fmtV, if_true]; exact ⟨hk, ht, trivial⟩
+  · simp [AllStrKV]
 
 theorem AllStrKV_strMap {P : String → Prop} : ∀ {m : List (String × String)}, StrMapOk P m →
     AllStrKV P (m.map fun kv => (kv.1, Val.str kv.2))
@@ -568,7 +655,7 @@ theorem AllStrKV_fields {P : String → Prop} (hv : ∀ k ∈ vocabulary, P k) {
   · exact AllStrKV_optStr (v _ (by decide)) h.file
   · exact AllStrKV_optStr (v _ (by decide)) h.environment
   · exact AllStrKV_optStr (v _ (by decide)) hc
-  · exact AllStrKV_optBool (v _ (by decide)) _
+  · exact AllStrKV_optBool (v _ (by decide)) (v _ (by decide)) _
   · exact AllStrKV_optStrMap (v _ (by decide)) h.labels
   · exact AllStrKV_optStr (v _ (by decide)) h.driver
   · exact AllStrKV_optStrMap (v _ (by decide)) h.driverOpts
